@@ -28,5 +28,11 @@ m = {
     "notes": src.get("notes", ""),
     "not_applicable": src["not_applicable"],
 }
+targets = []
+for c in src["checks"]:
+    for t in c.get("lean_modules", []) + c.get("exes", []):
+        if t not in targets:
+            targets.append(t)
+(here / "lean" / "targets.txt").write_text("\n".join(targets) + "\n")
 (here / "MANIFEST.json").write_text(json.dumps(m, indent=1) + "\n")
 print("checks:", [c["property_id"] for c in checks], "n/a:", [n["property_id"] for n in m["not_applicable"]])
